@@ -27,6 +27,7 @@ type Opts struct {
 	MaxEvents    int    // cap on recorded events (0 = 100000), same meaning as mon.Trace.Max
 	DetectReentry bool  // abort when a rule is re-entered at an offset where it is active
 	Init          int   // >0: the state store starts as mon.InitialState(Init)
+	MemoPreds     bool  // variant used only to classify known finding F20: the verdict of a code predicate is cached per (predicate, offset) as Memoize(true) does, whatever its labels are
 	LRKeepSeeds   bool  // variant used only to classify known finding F06: a finished left-recursive result stays cached for its offset (as pigeon's leader memo does), so its blocks are not run again
 	LR            bool  // left recursion supported: left-recursive rules denote the left-associative iteration
 }
@@ -156,6 +157,7 @@ type interp struct {
 	curPos  int
 	curRule *gast.Rule
 	panicking bool
+	predMemo  map[[2]int]bool
 	inHandler int
 	recDepth  int
 	recLeft   map[int]bool
@@ -641,6 +643,15 @@ func (it *interp) eval(e *gast.Expr, pos int, st *state, fr frame, h *handler, r
 		return true, pos + w, it.in[pos : pos+w], st
 
 	case gast.AndCode, gast.NotCode:
+		if it.o.MemoPreds {
+			if it.predMemo == nil {
+				it.predMemo = map[[2]int]bool{}
+			}
+			if b, ok := it.predMemo[[2]int{e.ID, pos}]; ok {
+				return b, pos, nil, st
+			}
+			defer func() { it.predMemo[[2]int{e.ID, pos}] = ok }()
+		}
 		idx := len(it.res.Trace) + it.res.Dropped
 		key := mon.LabelCoin(it.event('P', e, pos, nil, fr, st))
 		sp := e.Code.Spec
